@@ -4,12 +4,17 @@ import (
 	"context"
 	"fmt"
 	"math/rand"
+	"sort"
 	"strings"
+	"sync"
 	"time"
 
 	"google.golang.org/protobuf/proto"
 
+	"github.com/smart-core-os/sc-api/go/traits"
+
 	"github.com/smart-core-os/sc-golang/pkg/resource"
+	"github.com/smart-core-os/sc-golang/pkg/trait/vendingpb"
 	"github.com/smart-core-os/sc-golang/verifharness/lib"
 )
 
@@ -35,6 +40,21 @@ type idSession struct {
 	Mask        string   `json:"mask,omitempty"`
 	UpdatesOnly bool     `json:"updates_only,omitempty"`
 	Icpt        string   `json:"id_interceptor,omitempty"`
+	// Via: "" - Collection.PullID directly; "vending" - through the trait model that forwards its caller's read
+	// options to PullID: vendingpb.Model.PullConsumable(ctx, name, opts...) on the model's consumables collection
+	// (writes through CreateConsumable / UpdateConsumable / DeleteConsumable, List through ListConsumables).  The
+	// model's own forwarding goroutine sits between PullID and the receiver, so the fences do not reach the
+	// receiver: such a session is judged on its WHOLE stream, and its history ends (whenever the predicate
+	// accepts some version of the item) with a write that brings the item into the filtered collection and one
+	// that deletes it - the stream's end is then the quiescent point.
+	Via string `json:"via,omitempty"`
+	// Lossy: PullID without backpressure (the default): the underlying Pull's events go through the
+	// mergeCollectionExcess goroutine, so which intermediate versions are sent depends on scheduling.  Judged only
+	// by what holds for every merge pattern (Lean: C08_pullid_lossy_matches_list): every value sent is a version the
+	// item had inside the filtered collection; a stream PullID closed means the item did leave the filtered
+	// collection; and EVENTUALLY either the stream is closed or the value last sent is List(WithInclude p)'s entry
+	// for the id (the harness polls for that, bounded by the usual time limit; no model tie).
+	Lossy bool `json:"lossy,omitempty"`
 }
 
 type idObs struct {
@@ -65,6 +85,12 @@ func showValue(vc *resource.ValueChange) string {
 }
 
 func (s idSession) run() (o idObs) {
+	if s.Via != "" {
+		return s.runVia()
+	}
+	if s.Lossy {
+		return s.runLossy()
+	}
 	c := resource.NewCollection(collectionOpts("", s.Icpt)...)
 	for _, op := range s.Ops[:s.NBefore] {
 		_ = applyOp(c, op)
@@ -212,6 +238,14 @@ func listEntry(list, id string) string {
 
 // monitor: independent of the model - a plain map, the predicate, and the property's four cells.
 func (s idSession) monitor(m sink, o idObs) {
+	if s.Via != "" {
+		s.monitorVia(m, o)
+		return
+	}
+	if s.Lossy {
+		s.monitorLossy(m, o)
+		return
+	}
 	pre := "C08/PullID/"
 	sh := shadow{}
 	for _, op := range s.Ops[:s.NBefore] {
@@ -345,6 +379,16 @@ func (s session) opSuffixFull() string {
 }
 
 func (s idSession) codeAnswer(o idObs) string {
+	if s.Via != "" {
+		end := "open"
+		if o.Closed {
+			end = "closed"
+		}
+		if o.Blocked {
+			end = "blocked"
+		}
+		return "stream=" + showVals(o.Seed) + " end=" + end + " list=" + o.List
+	}
 	parts := []string{"seed=" + showVals(o.Seed)}
 	for _, vs := range o.Per {
 		parts = append(parts, showVals(vs))
@@ -370,6 +414,18 @@ func genIDSession(r *rand.Rand, small bool) idSession {
 		ids = g.Pred.Ids
 	}
 	s.ID = ids[r.Intn(len(ids))]
+	if r.Intn(2) == 0 {
+		// closing writes: the item is brought into the filtered collection (if the predicate accepts a version of
+		// it) and deleted - a stream that is still open ends here
+		target := s.ID
+		for _, v := range g.Pred.Vals {
+			if v != emptyOf(v) && !g.Pred.Nil && g.Pred.in(target, v) {
+				s.Ops = append(append([]string{}, s.Ops...), "ups:"+target+":"+v)
+				break
+			}
+		}
+		s.Ops = append(append([]string{}, s.Ops...), "dela:"+target)
+	}
 	if s.Icpt == "lower" && r.Intn(2) == 0 {
 		s.ID = strings.ToUpper(s.ID)
 	}
@@ -385,6 +441,12 @@ func runPullID(f lib.Flags, res *lib.Result, drv *lib.Driver) {
 	stuck := 0
 	for i := 0; i < n; i++ {
 		s := genIDSession(r, i < n/4)
+		if i%4 == 3 {
+			s = genViaSession(r)
+		}
+		if i%4 == 1 {
+			s.Lossy = true
+		}
 		var first idObs
 		runs := 0
 		confirmed(res, mon, func(sk sink) any {
@@ -405,8 +467,8 @@ func runPullID(f lib.Flags, res *lib.Result, drv *lib.Driver) {
 				break
 			}
 		}
-		if drv == nil {
-			continue
+		if drv == nil || s.Lossy {
+			continue // (without backpressure the stream is set-valued: monitor only)
 		}
 		ans, err := drv.Batch([]string{s.driverLine()})
 		if err != nil {
@@ -414,9 +476,505 @@ func runPullID(f lib.Flags, res *lib.Result, drv *lib.Driver) {
 			continue
 		}
 		key := fmt.Sprintf("%s/%s/%d/%s", s.Pred.token(), s.ID, s.NBefore, strings.Join(s.Ops, " "))
-		tie.Record(key, !s.Pred.Nil, s, ans[0], s.codeAnswer(first))
+		model := ans[0]
+		if s.Via != "" {
+			key = "via-" + s.Via + "/" + key
+			model = wholeStream(model)
+			tie.Count("through vendingpb.Model.PullConsumable")
+		}
+		tie.Record(key, !s.Pred.Nil, s, model, s.codeAnswer(first))
 		tie.Count(fmt.Sprintf("writes=%d", len(s.Ops)-s.NBefore))
 	}
+}
+
+// --- without backpressure -----------------------------------------------------------------------------
+
+func (s idSession) runLossy() (o idObs) {
+	c := resource.NewCollection(collectionOpts("", s.Icpt)...)
+	for _, op := range s.Ops[:s.NBefore] {
+		_ = applyOp(c, op)
+	}
+	ctx, cancel := context.WithCancel(context.Background())
+	defer cancel()
+	var opts []resource.ReadOption
+	if ff := s.Pred.filterFunc(); ff != nil {
+		opts = append(opts, resource.WithInclude(ff))
+	}
+	opts = append(opts, s.asSession().maskOpts()...)
+	if s.UpdatesOnly {
+		opts = append(opts, resource.WithUpdatesOnly(true))
+	}
+	// an updates-only subscriber holds the entry List gave it when it subscribed
+	base := "?"
+	if s.UpdatesOnly {
+		base = listEntry(listWithInclude(c, s.Pred, s.asSession().maskOpts()...), s.target())
+	}
+	ch := c.PullID(ctx, s.ID, opts...)
+	var mu sync.Mutex
+	var vals []string
+	closed := false
+	done := make(chan struct{})
+	go func() {
+		defer close(done)
+		for vc := range ch {
+			mu.Lock()
+			vals = append(vals, showValue(vc))
+			mu.Unlock()
+		}
+		mu.Lock()
+		closed = true
+		mu.Unlock()
+	}()
+	panicked, msg := lib.Catch(func() {
+		for _, op := range s.Ops[s.NBefore:] {
+			if err := applyOp(c, op); err != nil {
+				o.Results = append(o.Results, "fail")
+			} else {
+				o.Results = append(o.Results, "ok")
+			}
+		}
+	})
+	if panicked {
+		o.Panicked = msg
+		return o
+	}
+	o.List = listWithInclude(c, s.Pred, s.asSession().maskOpts()...)
+	entry := listEntry(o.List, s.target())
+	deadline := time.Now().Add(fenceTimeout)
+	for {
+		mu.Lock()
+		o.Closed = closed
+		o.Seed = append([]string{}, vals...)
+		mu.Unlock()
+		held := base
+		if len(o.Seed) > 0 {
+			held = strings.SplitN(o.Seed[len(o.Seed)-1], "/", 2)[0]
+		} else if entry == "-" && !s.UpdatesOnly {
+			held = "-" // nothing sent, nothing listed
+		}
+		if o.Closed || held == entry {
+			break
+		}
+		if time.Now().After(deadline) {
+			o.Late = []string{"never"} // the eventual condition was not met
+			break
+		}
+		time.Sleep(200 * time.Microsecond)
+	}
+	cancel()
+	select {
+	case <-done:
+	case <-time.After(fenceTimeout):
+		o.Blocked = true
+	}
+	return o
+}
+
+func (s idSession) monitorLossy(m sink, o idObs) {
+	pre := "C08/PullID/bp=off/"
+	if o.Panicked != "" {
+		m.Violate(pre+"panic", "a write panicked while an include-filtered PullID was open", s, "no panic", o.Panicked)
+		return
+	}
+	if o.Blocked {
+		m.Violate(pre+"not-closed-after-cancel", "the stream of a cancelled PullID was not closed within the time limit", s, "closed", "open")
+		return
+	}
+	id := s.target()
+	sh := shadow{}
+	for _, op := range s.Ops[:s.NBefore] {
+		sh.apply(canonOp(s.Icpt, op))
+	}
+	// the versions of the item inside the filtered collection since the subscription, and whether it ever left it
+	versions := map[string]bool{}
+	if v, ok := sh[id]; ok && s.Pred.in(id, v) {
+		versions[projTok(s.Mask, v)] = true
+	}
+	left := false
+	for k, op := range s.Ops[s.NBefore:] {
+		okWant, pubs := sh.apply(canonOp(s.Icpt, op))
+		want := "ok"
+		if !okWant {
+			want = "fail"
+		}
+		if k < len(o.Results) && o.Results[k] != want {
+			m.Violate("C08/write/"+strings.Split(op, ":")[0]+"/wrong-result", "write result differs from a plain map", s, want, o.Results[k])
+		}
+		for _, pe := range pubs {
+			if pe.id != id {
+				continue
+			}
+			oin, nin := s.Pred.in(id, pe.old), s.Pred.in(id, pe.new)
+			if nin {
+				versions[projTok(s.Mask, pe.new)] = true
+			}
+			if oin && !nin {
+				left = true
+			}
+		}
+	}
+	for _, vf := range o.Seed {
+		if v := strings.SplitN(vf, "/", 2)[0]; !versions[v] {
+			m.Violate(pre+"outside-filtered-collection/delivered", "PullID(id, WithInclude p) without backpressure sent a value that is no version of the item inside the filtered collection", s, "one of the item's matching versions", v)
+			break
+		}
+	}
+	if o.Closed && !left {
+		m.Violate(pre+"ended-early", "the stream of PullID was closed although the item never left the filtered collection", s, "open", "closed")
+	}
+	if want := sh.filtered(s.Pred, s.Mask); o.List != want {
+		m.Violate("C08/List/not-filtered-collection", "List(WithInclude) is not the filtered collection", s, want, o.List)
+	}
+	entry := listEntry(o.List, id)
+	switch {
+	case len(o.Late) > 0:
+		held := "nothing"
+		if len(o.Seed) > 0 {
+			held = o.Seed[len(o.Seed)-1]
+		}
+		m.Violate(pre+"never-settles-on-List-entry", "everything was published, yet PullID(id, WithInclude p) neither closed the stream nor sent the entry List(WithInclude p) has for the id, within the time limit", s, "closed, or last value "+entry, "open, last value "+held)
+	}
+	if o.Closed {
+		m.Count("bp=off: stream ended by the item leaving the filtered collection")
+	} else {
+		m.Count("bp=off: stream open at the end")
+	}
+	m.Count(fmt.Sprintf("bp=off: published=%d sent=%d", len(s.Ops)-s.NBefore, len(o.Seed)))
+	m.Eval(fmt.Sprintf("lossy/%s/%s/%s", s.Pred.token(), s.ID, strings.Join(s.Ops, " ")), !s.Pred.Nil, nil)
+}
+
+// --- through a trait model ---------------------------------------------------------------------------
+
+// consOf: the consumable holding a value token (one character: the title; two: title and display name).
+func consOf(id, tok string) *traits.Consumable {
+	c := &traits.Consumable{Name: id}
+	if tok != emptyTok && tok[0] != '_' {
+		c.Title = tok[:1]
+	}
+	if len(tok) == 2 && tok[1] != '_' {
+		c.DisplayName = tok[1:]
+	}
+	return c
+}
+
+func tokOfCons(c *traits.Consumable, wide bool) string {
+	if c == nil {
+		return "-"
+	}
+	if wide {
+		return fieldTok(c.Title) + fieldTok(c.DisplayName)
+	}
+	if c.Title == "" {
+		return emptyTok
+	}
+	return c.Title
+}
+
+func (s idSession) viaReadOpts(record *[]string) []resource.ReadOption {
+	wide := s.Mask != ""
+	var opts []resource.ReadOption
+	if !s.Pred.Nil {
+		opts = append(opts, resource.WithInclude(func(id string, m proto.Message) bool {
+			c, _ := m.(*traits.Consumable)
+			r := s.Pred.eval(id, tokOfCons(c, wide))
+			if r && record != nil {
+				*record = append(*record, id)
+			}
+			return r
+		}))
+	}
+	switch s.Mask {
+	case "keep1":
+		opts = append(opts, resource.WithReadPaths(&traits.Consumable{}, "title"))
+	case "keep2":
+		opts = append(opts, resource.WithReadPaths(&traits.Consumable{}, "display_name"))
+	}
+	return opts
+}
+
+func applyVia(m *vendingpb.Model, op string) error {
+	q := strings.Split(op, ":")
+	var err error
+	switch q[0] {
+	case "add":
+		_, err = m.CreateConsumable(consOf(q[1], q[2]))
+	case "upd":
+		_, err = m.UpdateConsumable(consOf(q[1], q[2]))
+	case "ups":
+		_, err = m.UpdateConsumable(consOf(q[1], q[2]), resource.WithCreateIfAbsent())
+	case "del":
+		_, err = m.DeleteConsumable(q[1])
+	case "dela":
+		_, err = m.DeleteConsumable(q[1], resource.WithAllowMissing(true))
+	default:
+		panic("bad op for the vending model " + op)
+	}
+	return err
+}
+
+func (s idSession) runVia() (o idObs) {
+	m := vendingpb.NewModel()
+	for _, op := range s.Ops[:s.NBefore] {
+		_ = applyVia(m, op)
+	}
+	ctx, cancel := context.WithCancel(context.Background())
+	defer cancel()
+	opts := append(s.viaReadOpts(nil), resource.WithBackpressure(true))
+	if s.UpdatesOnly {
+		opts = append(opts, resource.WithUpdatesOnly(true))
+	}
+	wide := s.Mask != ""
+	ch := m.PullConsumable(ctx, s.ID, opts...)
+	type wres struct {
+		results  []string
+		panicked string
+	}
+	wdone := make(chan wres, 1)
+	go func() {
+		var w wres
+		panicked, msg := lib.Catch(func() {
+			for _, op := range s.Ops[s.NBefore:] {
+				if err := applyVia(m, op); err != nil {
+					w.results = append(w.results, "fail")
+				} else {
+					w.results = append(w.results, "ok")
+				}
+			}
+		})
+		if panicked {
+			w.panicked = msg
+		}
+		wdone <- w
+	}()
+	timer := time.NewTimer(fenceTimeout)
+	defer timer.Stop()
+	var stream []string
+	writing := true
+	for writing {
+		select {
+		case vc, open := <-ch:
+			if !open {
+				o.Closed = true
+				ch = nil
+				continue
+			}
+			stream = append(stream, tokOfCons(vc.Value, wide))
+		case w := <-wdone:
+			o.Results = w.results
+			if w.panicked != "" {
+				o.Panicked = w.panicked
+				return o
+			}
+			writing = false
+		case <-timer.C:
+			o.Blocked = true
+			return o
+		}
+	}
+	// everything is published; the stream's own end is the quiescent point (the history ends by taking the item
+	// out of the filtered collection whenever the predicate accepts a version of it)
+	if ch != nil {
+		grace := time.NewTimer(2 * closeGrace)
+	wait:
+		for {
+			select {
+			case vc, open := <-ch:
+				if !open {
+					o.Closed = true
+					ch = nil
+					break wait
+				}
+				stream = append(stream, tokOfCons(vc.Value, wide))
+			case <-grace.C:
+				break wait
+			}
+		}
+		grace.Stop()
+	}
+	o.Seed = stream // the whole stream
+	var ids []string
+	got := m.ListConsumables(s.viaReadOpts(&ids)...)
+	if s.Pred.Nil {
+		for _, id := range []string{"a", "b", "c"} {
+			if _, ok := m.GetConsumable(id); ok {
+				ids = append(ids, id)
+			}
+		}
+	}
+	sort.Strings(ids)
+	switch {
+	case len(ids) != len(got):
+		o.List = fmt.Sprintf("!len(ids)=%d,len(list)=%d", len(ids), len(got))
+	case len(got) == 0:
+		o.List = "-"
+	default:
+		parts := make([]string, len(got))
+		for i := range got {
+			parts[i] = ids[i] + "=" + tokOfCons(got[i], wide)
+		}
+		o.List = strings.Join(parts, ",")
+	}
+	if ch != nil {
+		cancel()
+		t2 := time.NewTimer(fenceTimeout)
+		defer t2.Stop()
+		for {
+			select {
+			case _, open := <-ch:
+				if !open {
+					return o
+				}
+			case <-t2.C:
+				o.Blocked = true
+				return o
+			}
+		}
+	}
+	return o
+}
+
+// monitorVia: the whole stream against the plain map and the predicate.
+func (s idSession) monitorVia(m sink, o idObs) {
+	pre := "C08/PullID/via-" + s.Via + "/"
+	if o.Panicked != "" {
+		m.Violate(pre+"panic", "a write panicked while an include-filtered single-item Pull of the trait model was open", s, "no panic", o.Panicked)
+		return
+	}
+	if o.Blocked {
+		m.Violate(pre+"write-blocked", "a write did not return (or the stream of a cancelled subscription was not closed) within the time limit", s, "returns", "blocked")
+		return
+	}
+	sh := shadow{}
+	for _, op := range s.Ops[:s.NBefore] {
+		sh.apply(op)
+	}
+	id := s.ID
+	var exp []string
+	if v, ok := sh[id]; ok && s.Pred.in(id, v) && !s.UpdatesOnly {
+		exp = append(exp, projTok(s.Mask, v))
+	}
+	open := true
+	for k, op := range s.Ops[s.NBefore:] {
+		okWant, pubs := sh.apply(op)
+		want := "ok"
+		if !okWant {
+			want = "fail"
+		}
+		if k < len(o.Results) && o.Results[k] != want {
+			m.Violate("C08/write/via-"+s.Via+"/"+strings.Split(op, ":")[0]+"/wrong-result", "write result differs from a plain map", s, want, o.Results[k])
+		}
+		for _, pe := range pubs {
+			if pe.id != id || !open {
+				continue
+			}
+			oin, nin := s.Pred.in(id, pe.old), s.Pred.in(id, pe.new)
+			m.Count("via " + s.Via + ": cell " + pe.kind + "/" + inout(oin) + "-" + inout(nin))
+			switch {
+			case nin:
+				exp = append(exp, projTok(s.Mask, pe.new))
+			case oin:
+				open = false
+			}
+		}
+	}
+	got := o.Seed
+	if showVals(got) != showVals(exp) {
+		what, sig := "the values the trait model's single-item Pull sent are not the item's versions in the filtered collection", "wrong-stream"
+		// the first difference names the case
+		i := 0
+		for i < len(got) && i < len(exp) && got[i] == exp[i] {
+			i++
+		}
+		switch {
+		case i == len(exp):
+			what, sig = "the trait model's single-item Pull sent a version of the item that is not in the filtered collection (or went on after the item had left it)", "outside-filtered-collection/delivered"
+		case i == len(got):
+			what, sig = "a version of the item that is in the filtered collection was not sent", "not-delivered"
+		}
+		m.Violate(pre+sig, what, s, showVals(exp), showVals(got))
+	}
+	switch {
+	case !open && !o.Closed:
+		m.Violate(pre+"not-ended-on-leaving-filtered-collection", "the item left the filtered collection but the stream was not closed", s, "closed", "open")
+	case open && o.Closed:
+		m.Violate(pre+"ended-early", "the stream was closed although the item never left the filtered collection", s, "open", "closed")
+	}
+	if want := sh.filtered(s.Pred, s.Mask); o.List != want {
+		m.Violate("C08/List/via-"+s.Via+"/not-filtered-collection", "the trait model's List with the include option is not the filtered collection", s, want, o.List)
+	}
+	if o.Closed {
+		m.Count("via " + s.Via + ": stream ended by the item leaving the filtered collection")
+	} else {
+		m.Count("via " + s.Via + ": stream open at the end")
+	}
+	m.Eval(fmt.Sprintf("via/%s/%s/%s", s.Pred.token(), s.ID, strings.Join(s.Ops, " ")), !s.Pred.Nil, nil)
+}
+
+// wholeStream turns the model's per-write `pullid` answer into the whole-stream form of a Via session.
+func wholeStream(ans string) string {
+	var vals []string
+	var tail []string
+	for i, t := range strings.Split(ans, " ") {
+		switch {
+		case i == 0:
+			t = strings.TrimPrefix(t, "seed=")
+			fallthrough
+		case !strings.HasPrefix(t, "end=") && !strings.HasPrefix(t, "list="):
+			if t != "-" {
+				for _, v := range strings.Split(t, ",") {
+					vals = append(vals, strings.SplitN(v, "/", 2)[0])
+				}
+			}
+		default:
+			tail = append(tail, t)
+		}
+	}
+	return "stream=" + showVals(vals) + " " + strings.Join(tail, " ")
+}
+
+func genViaSession(r *rand.Rand) idSession {
+	ids := ids2
+	vals, mask := vals2, ""
+	if r.Intn(3) == 0 {
+		vals, mask = valsWide, []string{"keep1", "keep2"}[r.Intn(2)]
+	}
+	pvals := append(append([]string{}, vals...), emptyOf(vals[0]))
+	p := pred{Ids: ids, Vals: pvals}
+	bits := uint(len(ids) * (len(pvals) + 1))
+	p.Mask = uint64(r.Int63()) & (1<<bits - 1)
+	nb, na := r.Intn(3), 1+r.Intn(5)
+	sh := shadow{}
+	var ops []string
+	for len(ops) < nb+na {
+		id, v := ids[r.Intn(len(ids))], vals[r.Intn(len(vals))]
+		_, present := sh[id]
+		var op string
+		switch x := r.Intn(12); {
+		case x == 0:
+			op = []string{"add", "upd", "del", "dela"}[r.Intn(4)] + ":" + id
+			if !strings.HasPrefix(op, "del") {
+				op += ":" + v
+			}
+		case !present:
+			op = []string{"add", "ups"}[r.Intn(2)] + ":" + id + ":" + v
+		case x < 4:
+			op = "del:" + id
+		default:
+			op = []string{"upd", "upd", "ups"}[r.Intn(3)] + ":" + id + ":" + v
+		}
+		sh.apply(op)
+		ops = append(ops, op)
+	}
+	s := idSession{Kind: "pullid", Via: "vending", Pred: p, NBefore: nb, Mask: mask, ID: ids[r.Intn(len(ids))], UpdatesOnly: r.Intn(5) == 0}
+	// the closing writes: into the filtered collection (if the predicate accepts a version of the item), then deleted
+	for _, v := range vals {
+		if p.in(s.ID, v) {
+			ops = append(ops, "ups:"+s.ID+":"+v)
+			break
+		}
+	}
+	s.Ops = append(ops, "dela:"+s.ID)
+	return s
 }
 
 var _ = proto.Clone
